@@ -50,6 +50,7 @@ func runC12(w *World, r *Report) {
 	r.Rule("C12-R4", "single-entry read-modify-write; dropped entries frozen", "UpdateTaskCollectionPosition: each of the three map updates uses the given channel (or the target position's own key) and is control-dependent on `origin == nil || !origin.Dropped` for that key", 6)
 	r.Rule("C12-R6", "a store call given a transaction runs inside it", "in every Put/Get/Delete of the four backend stores, no direct client call (*sql.DB statement, etcd client Put/Get/Delete) is reachable from the `txn != nil` branch, and that branch stages its statement on the transaction (*sql.Tx statement / append to the transaction's op list)", 12)
 	c12TxnBranch(w, r)
+	c12DropMarksAll(w, r, "C12-R7")
 	r.Rule("C12-R5", "identifiers validated before they become key segments", "validCreateRequest rejects a task id containing '/' before any store call of Create", 1)
 
 	// ---------- key functions
@@ -421,6 +422,64 @@ func c12R4(w *World, r *Report, rule string) {
 		}
 	} else {
 		r.Undecided(rule, "UpdateTaskCollectionPosition", 0, "anchor not found")
+	}
+}
+
+// c12DropMarksAll (C12-R7, shared with C05): freezing a dropped collection marks every entry of each of the three
+// checkpoint tables, each reached through a range over that very table (the tables are keyed differently: source channel
+// names, op channel names, TARGET channel names).
+func c12DropMarksAll(w *World, r *Report, rule string) {
+	r.Rule(rule, "a replayed drop freezes every entry of the three checkpoint tables", "store.UpdateDropStateTaskCollectionPosition: for each of Positions, OpPositions and TargetPositions a `Dropped = true` store is made on the value of a range over that table itself (not on a lookup with a key taken from another table)", 3)
+	fn := w.Func(pkgStore, "", "UpdateDropStateTaskCollectionPosition")
+	if fn == nil {
+		r.Undecided(rule, "UpdateDropStateTaskCollectionPosition", 0, "anchor not found")
+		return
+	}
+	marked := map[string]bool{"Positions": false, "OpPositions": false, "TargetPositions": false}
+	viaLookup := map[string]token.Pos{}
+	for _, g := range familyOf(fn).Funcs {
+		eachInstr(g, func(in ssa.Instruction) {
+			st, ok := in.(*ssa.Store)
+			if !ok {
+				return
+			}
+			fa, ok := st.Addr.(*ssa.FieldAddr)
+			if !ok || fieldName(fa.X.Type(), fa.Field) != "Dropped" {
+				return
+			}
+			if c, isC := st.Val.(*ssa.Const); !isC || c.Value == nil || c.Value.String() != "true" {
+				return
+			}
+			for _, v := range backSlice(fa.X, SliceOpts{MaxDepth: 6, NoAggregates: true}) {
+				switch x := v.(type) {
+				case *ssa.Extract:
+					if nx, isNext := x.Tuple.(*ssa.Next); isNext && x.Index == 2 {
+						if rg, isR := nx.Iter.(*ssa.Range); isR {
+							ap := w.accessPath(rg.X)
+							for t := range marked {
+								if strings.HasSuffix(ap, "."+t) {
+									marked[t] = true
+								}
+							}
+						}
+					}
+				case *ssa.Lookup:
+					ap := strings.TrimSuffix(w.accessPath(x.X), "[]")
+					for t := range marked {
+						if strings.HasSuffix(ap, "."+t) {
+							viaLookup[t] = x.Pos()
+						}
+					}
+				}
+			}
+		})
+	}
+	for _, t := range sortedKeys(marked) {
+		detail := "no `Dropped = true` store on the entries of this table"
+		if p, ok := viaLookup[t]; ok {
+			detail = "the entries are reached by a lookup with a key of another table (" + w.Prog.Fset.Position(p).String() + "): TargetPositions is keyed by the downstream channel, Positions by the source channel, so entries without a same-named sibling are never marked"
+		}
+		r.Check(marked[t], rule, "store.UpdateDropStateTaskCollectionPosition | every entry of "+t+" is marked", fn.Pos(), "marked on the range over the table itself", detail+": a late acknowledgement overwrites the checkpoint of a collection whose drop was replayed")
 	}
 }
 
